@@ -1,16 +1,21 @@
 /-
   Driver for C03 (physical bounds): one battery, one or more histories, the observable state
   after every call.  (Drivers/C14.lean is the same program; the two properties share the model.)
-  request : {"batt": {two,cap,init,maxp,noise,ts,calc}, "ev": bool,
+  request : {"batt": {two,cap,init,maxp,noise,ts,calc}, "ev": bool, ["evse": <kind>,]
              "runs": [[{"op":"charge","p","V","T","nu"} | {"op":"reset","init": null | bits}, …], …]}
   answer  : {"ctor": null | "ValueError",
-             "runs": [[{"err": null | "ValueError" | "ZeroDivisionError", "rate", "charge", "power"
-                        [, "delivered", "evrate"]}, …], …]}
+             "runs": [[{"err": null | "ValueError" | "ZeroDivisionError" | "InvalidRate", "rate",
+                        "charge", "power" [, "delivered", "evrate"] [, "pilot"]}, …], …]}
   Every run starts from a freshly constructed battery.  Without "ev" a run is executed by
   `Battery.runOps` (the function the history theorems are about); with "ev" the calls go
-  through `Evse.Ev.charge` and `reset` acts on the EV's battery.
+  through `Evse.Ev.charge` and `reset` acts on the EV's battery; with "evse" (a kind as in
+  Drivers/C13.lean) the EV is plugged into an EVSE of that class and every charge op is
+  `set_pilot(p, V, T)` (`Evse.setPilotSt`, the step function of `Evse.runPilots`), with the
+  class's default tolerance from the regenerated constants.
 -/
 import AcnModel.WireModels
+import AcnModel.EvseRun
+import AcnModel.Gen.Consts
 open Lean Acn Acn.Wire Acn.Battery Acn.Evse
 
 def battErrName : Battery.Err → String
@@ -48,21 +53,62 @@ def runEv (e : Ev Float) : List (Op Float) → List Json
       jStep b' (.ok 0.0) [("delivered", jF e'.delivered), ("evrate", jF e'.rate)] :: runEv e' os
     | .error x => jStep e.batt (.error x) [("delivered", jF e.delivered), ("evrate", jF e.rate)] :: runEv e os
 
+def fixedAtol : Float := fOfBits Acn.Gen.finiteAtolBits
+
+/-- default `atol` of the class's `_valid_rate`, which is what `set_pilot` uses -/
+def defaultAtol : Kind Float → Float
+  | .cont _ _ => fOfBits Acn.Gen.evseAtolBits
+  | .deadband _ _ => fOfBits Acn.Gen.deadbandAtolBits
+  | .finite _ => fOfBits Acn.Gen.finiteAtolBits
+
+def callErrName : CallErr → String
+  | .invalidRate => "InvalidRate"
+  | .battery e => battErrName e
+
+def jEvseStep (s : Evse Float) (e : Ev Float) (err : Option String) (rate : Float := e.rate) : Json :=
+  let r : Except Battery.Err Float := .ok rate
+  let j := jStep e.batt r [("delivered", jF e.delivered), ("evrate", jF e.rate), ("pilot", jF s.pilot)]
+  match err with
+  | none => j
+  | some x => (j.setObjVal! "err" (jS x)).setObjVal! "rate" (jF 0.0)
+
+/-- the same history through an EVSE with the EV plugged in (evse.py:110-136) -/
+def runEvse (s : Evse Float) : List (Op Float) → List Json
+  | [] => []
+  | .charge p V T ν :: os =>
+    let (s', err) := setPilotSt (defaultAtol s.kind) fixedAtol s { p, V, T, ν }
+    match s'.ev with
+    | some e' => jEvseStep s' e' (err.map callErrName) :: runEvse s' os
+    | none => []
+  | .reset i :: os =>
+    match s.ev with
+    | none => []
+    | some e =>
+      match reset e.batt i with
+      | .ok b' =>
+        let e' := { e with batt := b' }
+        let s' := { s with ev := some e' }
+        jEvseStep s' e' none 0.0 :: runEvse s' os
+      | .error x => jEvseStep s e (some (battErrName x)) :: runEvse s os
+
 def handle (j : Json) : Except String Json := do
   let b0 ← parseBatt (← j.getObjVal? "batt")
   let ev := (j.getObjVal? "ev" >>= Json.getBool?).toOption.getD false
   let runs ← getArr j "runs"
+  let kind ← getOpt j "evse" parseKind
   match b0 with
   | .error e => pure (Json.mkObj [("ctor", jS (battErrName e)), ("runs", Json.arr #[])])
   | .ok b =>
     let mut outs : Array Json := #[]
     for r in runs do
       let ops ← (← asArr r).mapM parseOp
+      let e0 : Ev Float :=
+        { session := "s", station := "S", arrival := 0, departure := 1, estDeparture := 1,
+          requested := 0.0, delivered := 0.0, rate := 0.0, batt := b }
       let steps :=
-        if ev then
-          runEv { session := "s", station := "S", arrival := 0, departure := 1, estDeparture := 1,
-                  requested := 0.0, delivered := 0.0, rate := 0.0, batt := b } ops
-        else runPlain b ops
+        match kind with
+        | some k => runEvse { station := "S", kind := k, pilot := 0.0, ev := some e0 } ops
+        | none => if ev then runEv e0 ops else runPlain b ops
       outs := outs.push (Json.arr steps.toArray)
     pure (Json.mkObj [("ctor", Json.null), ("runs", Json.arr outs)])
 
